@@ -62,8 +62,8 @@ CLAIMS = {
           'binarySearch_sorted, lineInfo_sorted, lineInfo_total, lineInfo_profile: for every sorted line table and offset the column is the true column, the line is the true line minus one from line 2 on (known finding K2, pinned by a unit test; stated as theorem and counterexample), '
           'and the lookup never panics or wraps for any table. The rest of the property (crate error type, path, location of the unexpected token, Display returns) is decided on rejected inputs (mutated corpus programs, soup, unterminated tokens at every line, multi-line tokens and backtracking before the error, nesting 62-200) '
           'by model/implementation correspondence on (variant, line, col, token) and an oracle that looks the token text up at the reported place; partial proof.'
-          ' Props/Lines.lean: linesOK_next / linesOK_goback (every successful scanner step and every backtracking keeps the line table exactly the offsets after the newlines before the scanner position), sorted_of_linesOK, lineOf_reachable, mem_lines: the sortedness hypothesis holds in every reachable scanner state; Props/LinesAll.lean scanTokens_lines: after a whole text the table is exactly the text`s line-start table.',
-  'note': 'The table after a *failed* token (add_line for the newlines of an unterminated raw string / comment) is compared by correspondence on every scan case, not by theorem.',
+          ' Props/Lines.lean: linesOK_next / linesOK_goback (every successful scanner step and every backtracking keeps the line table exactly the offsets after the newlines before the scanner position), sorted_of_linesOK, lineOf_reachable, mem_lines: the sortedness hypothesis holds in every reachable scanner state; Props/LinesAll.lean scanTokens_lines: after a whole text the table is exactly the text`s line-start table; lineInfo_true: line_info = (newlines before the offset, distance from the last line start).',
+  'note': 'The table after a *failed* token is covered too (Props/C16b.lean: scanToken_region, nextToken_error_true, scanTokens_error_true: a scanning error carries the true column and newline count of an offset of the text). That the parser hands the *intended* offset to line_info is decided by the mutation oracle, not by a theorem.',
  },
  'C20': {
   'category': 'proof',
